@@ -23,10 +23,10 @@
     ignored as a whole.
   * `crash_durable_kept` (partial): a segment complete before the crashed step began is
     found by the first search after recovery, unless the crashed step is the compaction's
-    swap-and-delete (D14). What stays unproved: the second and later searches (true only
-    while no load loses live content — `loadLost`), validated by the correspondence run.
+    swap-and-delete (D14); `crash_durable_kept_every_search`: and by every search of every
+    later state in which `loadLost` is still false and the document was not removed.
 -/
-import CometProofs.Storage.DurableOpen
+import CometProofs.Storage.DurableAll
 namespace Comet.Storage
 
 /-! ## recovery and searches never fail (full) -/
@@ -206,6 +206,33 @@ theorem crash_durable_kept {cfg : Cfg} {s : Store} (hr : Reach cfg s) (ho : s.op
     rw [hc] at this; exact this
   unfold recover at hs ⊢
   exact found_after_open h1 hq (crash_reopen_ok cfg _ _).2 sched hs
+
+/-- PARTIAL, every search. … and after recovery and ANY continuation `xs` without a compaction swap,
+    in every state in which the store is open, no segment load has lost live content so far and `d`
+    was not removed, EVERY serialised search finds `d`. -/
+theorem crash_durable_kept_every_search {cfg : Cfg} {s : Store} (hr : Reach cfg s) (ho : s.opened = true)
+    (g : Nat) (d : Doc) (hh : SegHolds cfg.tpl s.fs g d)
+    (st : Step) (hns : st ≠ .bg .cswap) (k : Nat) (cuts : Name → Cut)
+    (xs : List XStep) (hx : ∀ x ∈ xs, noSwap x = true)
+    (hrun2 : running (xrun (xexec s (.crash st k cuts)) (.step .reopen :: xs)) = true)
+    (hl2 : (xrun (xexec s (.crash st k cuts)) (.step .reopen :: xs)).gh.loadLost = false)
+    (hrem : d.id ∉ (xrun (xexec s (.crash st k cuts)) (.step .reopen :: xs)).gh.removed)
+    (q : Q) (hq : Doc.matches cfg.tpl d q = true) (sched : List SegEv)
+    (hs : SerialFor (xrun (xexec s (.crash st k cuts)) (.step .reopen :: xs)) sched) :
+    found (xrun (xexec s (.crash st k cuts)) (.step .reopen :: xs)) q sched d := by
+  have hc := reach_cfg hr
+  -- right after the crash nothing is open: the invariant is just "the files are intact"
+  have h1 : KInv g d (xexec s (.crash st k cuts)) := by
+    simp only [xexec, ho, if_true]
+    exact ⟨segHolds_crash (idInv_reach hr) (by rw [hc]; exact hh) st hns k cuts, fun hop => by cases hop⟩
+  have hr1 : Reach cfg (xexec s (.crash st k cuts)) := reach_xexec hr _
+  have h2 := kInv_xrun (.step .reopen :: xs) hr1 h1 (by
+    intro x hxm
+    rcases List.mem_cons.mp hxm with rfl | hxm
+    · rfl
+    · exact hx x hxm)
+  have hr2 := reach_xrun hr1 (.step .reopen :: xs)
+  exact found_of_kInv (visInv_reach hr2) h2 hrun2 hl2 hrem q (by rw [reach_cfg hr2]; exact hq) sched hs
 
 /-- non-vacuity of `crash_durable_kept`: two completed flushes, then a crash 3 file operations
     into the third, every created file cut in its data: both earlier documents are found -/
